@@ -45,7 +45,7 @@ fn in_range(kind: u8, a: u32, lo: u32, hi: u32) -> bool {
 }
 
 /// all 8 match kinds on one skeleton, against list semantics; never panics
-fn aspath_case(counts: &[u8]) {
+fn aspath_case(counts: &[u8]) -> (bool, u8) {
     let (attr, asns, _types) = skeleton(counts);
     let kind: u8 = kani::any();
     kani::assume(kind < 8);
@@ -88,9 +88,8 @@ fn aspath_case(counts: &[u8]) {
         _ => nseg == 1 && counts[0] == 1 && in_range(kind, asns[0][0], lo, hi),
     };
     assert!(got == want);
-    kani::cover!(got && kind % 4 == 2);
-    kani::cover!(!got && kind == 0);
     core::mem::forget(attr);
+    (got, kind)
 }
 
 //@ id=C14 tier=quick cap=600
@@ -100,7 +99,10 @@ fn aspath_case(counts: &[u8]) {
 #[kani::proof]
 #[kani::unwind(8)]
 fn c14_aspath_2_1() {
-    aspath_case(&[2, 1]);
+    let (got, kind) = aspath_case(&[2, 1]);
+    kani::cover!(got && kind % 4 == 2);
+    kani::cover!(got && kind == 4);
+    kani::cover!(!got && kind == 0);
 }
 
 //@ id=C14 tier=quick cap=600
@@ -110,7 +112,9 @@ fn c14_aspath_2_1() {
 #[kani::proof]
 #[kani::unwind(8)]
 fn c14_aspath_1_0() {
-    aspath_case(&[1, 0]);
+    let (got, kind) = aspath_case(&[1, 0]);
+    kani::cover!(!got && kind % 4 == 2);
+    kani::cover!(got && kind == 1);
 }
 
 //@ id=C14 tier=quick cap=600
@@ -120,11 +124,15 @@ fn c14_aspath_1_0() {
 #[kani::proof]
 #[kani::unwind(8)]
 fn c14_aspath_empty() {
-    if kani::any() {
-        aspath_case(&[]);
+    let empty: bool = kani::any();
+    let (got, kind) = if empty {
+        aspath_case(&[])
     } else {
-        aspath_case(&[0]);
-    }
+        aspath_case(&[0])
+    };
+    assert!(!got);
+    kani::cover!(empty && kind == 2);
+    kani::cover!(!empty && kind == 6);
 }
 
 //@ id=C14 tier=thorough cap=900
@@ -136,12 +144,15 @@ fn c14_aspath_empty() {
 fn c14_aspath_more() {
     let k: u8 = kani::any();
     kani::assume(k < 4);
-    match k {
+    let (got, kind) = match k {
         0 => aspath_case(&[1]),
         1 => aspath_case(&[0, 1]),
         2 => aspath_case(&[1, 1, 1]),
         _ => aspath_case(&[2, 0, 1]),
-    }
+    };
+    kani::cover!(k == 0 && got && kind == 3);
+    kani::cover!(k == 1 && !got && kind == 1);
+    kani::cover!(k == 3 && got && kind == 2);
 }
 
 //@ id=C14 tier=thorough cap=600 expect=fail
